@@ -42,7 +42,12 @@ CHECK = Check(
         "row and output rows and writes only its own state row and output rows — a property of the list-level model OW/Sim/Wrapper.lean; "
         "tied to the source on every run by (A) the regenerated structural facts: harness/cmd/owrunfacts (go/parser + go/ast, general "
         "scope/alias rules, no fingerprints) over all 41 generated Run methods, 12 synthetic expansions of the template and "
-        "cmd/ow-sim/running.go, checked by the Lean kernel (current_run_facts_ok), and (B) real vectorised runs at GOMAXPROCS 1/2/4/16 "
+        "cmd/ow-sim/running.go, checked by the Lean kernel (current_run_facts_ok) — the extractor accepts the counted done-channel join "
+        "and the sync.WaitGroup join (Add of the launch count before the launches, one Done() at the end of every path, Wait() after the "
+        "loop), one goroutine per cell and a bounded worker pool (a channel filled with exactly 0..N-1 and closed before the first worker "
+        "starts, workers ranging over it), and re-establishes the footprint rules wherever the per-cell body lives: inline closure, a named "
+        "method it calls, per-cell view helpers in another package of the module (the callee's body is walked with its parameters bound to "
+        "the arguments); anything else is an `unsupported` site, i.e. a broken obligation —, and (B) real vectorised runs at GOMAXPROCS 1/2/4/16 "
         "compared with the sequential model (bit-exact up to the kernels' 1e-9 pow/exp tolerance) plus the in-worker single-cell oracle",
         "owrunfacts' knowledge of the data package API: Set/Set1/Set2/Set3/Apply/Apply1/ApplySlice/CopyFrom write the receiver's "
         "storage, Slice aliases it at the given location, Reshape/MustReshape/ReshapeFast/Unroll may alias, NewIndex returns a fresh "
@@ -62,8 +67,12 @@ CHECK = Check(
         "T3: the vectorised run succeeds (`runCells … = .ok`); a Go panic in any goroutine kills the process (no result to compare)",
         "the states array is at least as wide as every cell's state vector (otherwise ApplySlice copies past the row into the next "
         "cell's row — caller error, same assumption as C04)",
-        "T4: unbuffered channel, every goroutine sends exactly once after finishing, the parent receives exactly N times "
-        "(established for the source by the facts: sendOk/launchOk/recvOk)",
+        "T4: unbuffered channel, every goroutine sends exactly once after finishing, the parent receives exactly N times; "
+        "T4' (wg_join_complete): Add(N) before the launches, every goroutine calls Done() exactly once after finishing, Wait() returns "
+        "only at counter 0 (sync.WaitGroup trusted) — established for the source by the facts: sendOk/launchOk/recvOk",
+        "worker pool (workers_disjoint, pool_cells_any_interleaving): every cell index 0..N-1 is received by exactly one worker, once "
+        "(the channel is filled with exactly these and closed; each value sent on a channel is received once — Go channel semantics, "
+        "TRUSTED; established for the source by the facts: coverOk)",
     ],
     partial=[
         "partial by nature: schedule independence is proved for the MODEL's footprints; DRF ⇒ sequential consistency, channel "
@@ -79,8 +88,10 @@ META = dict(
          "disjoint_interleaving (+_view, same_view_in_all_interleavings): for pairwise disjoint tasks EVERY interleaving ends in the memory "
          "of the sequential run and every step sees the values its own task produced; cells_disjoint / cells_schedule_independent / "
          "cells_any_interleaving: on the C04 wrapper semantics the per-cell steps are pairwise disjoint, so every permutation and every "
-         "interleaving of the cells yields exactly `runCells` (the sequential cell-by-cell result); join_complete (+ deadlock freedom, "
-         "termination in exactly 2N steps) for the doneChan pattern for every N. The footprints are tied to the source by regenerated "
+         "interleaving of the cells yields exactly `runCells` (the sequential cell-by-cell result); workers_disjoint / "
+         "pool_cells_any_interleaving: the same for every bounded worker pool over the cells (a task is a worker, its footprint the union of "
+         "its cells' rows); join_complete (+ deadlock freedom, termination in exactly 2N steps) for the doneChan pattern and "
+         "wg_join_complete for the sync.WaitGroup pattern, for every N. The footprints are tied to the source by regenerated "
          "go/ast facts checked in Lean (current_run_facts_ok) and by vectorised runs at GOMAXPROCS 1/2/4/16 against the model.",
     design_ref="DESIGN.md §6 C05",
     note="PARTIAL BY NATURE: the theorems are about the footprints of the model. That data-race-free Go programs are sequentially "
